@@ -254,6 +254,7 @@ type Query struct {
 	Func   string
 	Props  []string
 	Clause string // contract clause text (for hashing / reporting)
+	FalseGoal bool
 }
 
 type Verdict struct {
@@ -389,7 +390,10 @@ func runAll(dir string, qs []*Query, timeout time.Duration, par int) []Verdict {
 			defer wg.Done()
 			defer func() { <-sem }()
 			v := runQuery(dir, q, timeout, false)
-			if !q.Cover && v.Result != "unsat" {
+			if !q.Cover && v.Result != "unsat" && q.FalseGoal {
+				v.Result = "sat"
+				v.Raw = "goal is literally false on this path and the path is not refuted: " + q.Goal
+			} else if !q.Cover && v.Result != "unsat" {
 				// retry once with 6x timeout and ask for a model
 				v2 := runQuery(dir, q, 3*timeout, true)
 				v2.Secs += v.Secs
